@@ -1,7 +1,7 @@
 SPECIFICATION Spec
 CONSTANTS
   MaxLen = 6
-  Atoms = {"G1", "B1", "p", "*", ">", "+", "~", ","}
+  Atoms = {"G1", "B1", "p", "*", ">", "+", "~", ",", ":2", ":odd"}
   Emit = TRUE
   EmitOneIn = 4
 INVARIANTS Inv_Syntax Inv_Stop Inv_Emit
